@@ -26,19 +26,30 @@ def run(ctx):
         return guarded(npc.npc, np.array([float(t) for t in pv]), np.array(D, dtype=float),
                        combine=(user if comb == "callable" else comb), plus1=plus1)
     for _ in range(ctx.n(500, 8000)):
-        B = ctx.rng.randint(2, 30); n = ctx.rng.randint(2, 5); plus1 = ctx.rng.random() < 0.5
+        B = ctx.rng.randint(2, 30) if ctx.rng.random() < 0.93 else ctx.rng.choice([64, 120]); n = ctx.rng.randint(2, 5); plus1 = ctx.rng.random() < 0.5
         c = 1 if plus1 else 0
         comb = ctx.rng.choice(["fisher", "tippett", "liptak", "callable"])
         name = {"callable": "negsum"}.get(comb, comb)
         hi = ctx.rng.choice([2, 4, 9])
         D = [[ctx.rng.randint(0, hi) for _ in range(n)] for _ in range(B)]
         pv = [Fr(ctx.rng.randint(1, B + c - (1 if comb == "liptak" else 0)), B + c) for _ in range(n)]
+        if comb == "liptak" and ctx.rng.random() < 0.5:      # all observed p-values very large: rows clipped at 1 - eps matter
+            pv = [Fr(ctx.rng.choice([990, 995, 999]), 1000) for _ in range(n)]
         det = {"call": "npc", "pvalues": [str(t) for t in pv], "distr": D, "combine": comb, "plus1": plus1}
         r0 = call(pv, D, comb, plus1)
         ctx.case((tuple(pv), tuple(map(tuple, D)), comb, plus1), True, det); ctx.count("base-" + comb)
         if r0[0] != "ok":
             det.update({"issue": "call failed", "returned": r0[1:]}); ctx.violation("oracle", det, site="npc"); continue
         k0 = numerator_of(r0[1], B + c)
+        if comb == "liptak":      # double-precision oracle of the documented formula (single-quotient p-values, every column clipped)
+            P = np.array([[(sum(1 for u in D if u[j] >= row[j]) + 2 * c) / (B + c) for j in range(n)] for row in D])
+            P[P >= 1] = 1 - np.finfo(float).eps
+            stat = np.array([np.sum(norm.ppf(1 - row)) for row in P]); obs = np.sum(norm.ppf(1 - np.array([float(t) for t in pv])))
+            lo_, hi_ = int(np.sum(stat > obs + 1e-9)) + c, int(np.sum(stat >= obs - 1e-9)) + c
+            ctx.count("liptak-oracle")
+            if k0 is None or not (lo_ <= k0 <= hi_):
+                det.update({"issue": "Liptak global p-value is not (c + #{rows whose sum of normal quantiles >= observed})/(c + B)", "returned": float(r0[1]), "numerator_bracket": [lo_, hi_]})
+                ctx.violation("oracle", det, site="npc"); continue
         # ---- monotone: raise one coordinate
         i = ctx.rng.randrange(n)
         steps = [Fr(1, B + c), Fr(1, 2 * (B + c)), Fr(ctx.rng.randint(1, B), B + c)]
@@ -73,7 +84,8 @@ def run(ctx):
                 ctx.bracketed += 1
         # ---- rank-based: strictly increasing transformation of one column
         jcol = ctx.rng.randrange(n)
-        f = ctx.rng.choice([lambda v: 3 * v + 1, lambda v: v ** 3, lambda v: math.exp(v / 3.0), lambda v: -1.0 / (v + 1)])
+        f = ctx.rng.choice([lambda v: 3 * v + 1, lambda v: v ** 3, lambda v: math.exp(v / 3.0), lambda v: -1.0 / (v + 1),
+                            lambda v: 1e-11 * v, lambda v: 3 + 1e-12 * v, lambda v: 1e9 * v - 7, lambda v: 2.0 ** -40 * v])
         D3 = [[(f(row[j]) if j == jcol else row[j]) for j in range(n)] for row in D]
         r3 = call(pv, D3, comb, plus1)
         ctx.count("pair-rank-transform"); ctx.case(("rank", jcol, tuple(pv), tuple(map(tuple, D)), comb, plus1), True)
